@@ -251,6 +251,35 @@ func (m *M) giantDue() bool {
 	return true
 }
 
+// sizeBoundaryPair: (message length, DST length) for which one of the strings expand_message_xmd hashes -- b_0's
+// 64 + len(msg) + 3 + len(DST) + 1 bytes, b_i's 32 + 1 + len(DST) + 1 bytes -- or msg || DST itself has a size of
+// 2^k - 1, 2^k or 2^k + 1 (fixed-size scratch buffers end there).  Walks through all of them over the histories.
+func (m *M) sizeBoundaryPair() (int, int, string) {
+	m.sizeIdx++
+	i := m.sizeIdx
+	delta := i%3 - 1
+	dls := []int{16, 49, 1, 255, 100}
+	switch (i / 3) % 3 {
+	case 0: // b_0
+		T := []int{128, 256, 512, 1024, 2048}[(i/9)%5]
+		dl := dls[(i/45)%len(dls)]
+		if ml := T + delta - 68 - dl; ml >= 0 {
+			return ml, dl, "b0_at_power_of_two"
+		}
+		return T + delta - 68 - 16, 16, "b0_at_power_of_two"
+	case 1: // b_i
+		T := []int{64, 128, 256}[(i/9)%3]
+		return []int{0, 3, 200}[(i/27)%3], T + delta - 34, "bi_at_power_of_two"
+	default: // msg || DST
+		T := []int{64, 128, 256, 512, 1024}[(i/9)%5]
+		dl := dls[(i/45)%len(dls)]
+		if ml := T + delta - dl; ml >= 0 {
+			return ml, dl, "msg+dst_at_power_of_two"
+		}
+		return T + delta - 16, 16, "msg+dst_at_power_of_two"
+	}
+}
+
 // reusedBuffers: the caller keeps ONE message buffer and ONE DST buffer across several calls and edits them in
 // place between the calls (a counter in the tag, a new message read into the same buffer): each call must
 // depend on the bytes the slices hold at the time of THAT call, whatever an earlier call saw behind the same pointers.
@@ -323,6 +352,15 @@ func genC08(m *M, budget int) {
 				m.EEncodeToGroup(m.rng.Intn(2), msg, dst)
 			}
 		}
+		for j := 0; j < 9; j++ { // the hashed strings exactly at, one below and one above a power-of-two size
+			ml, dl, what := m.sizeBoundaryPair()
+			m.class("preimage:" + what)
+			if m.rng.Intn(2) == 0 {
+				m.EHashToGroup(m.rng.Intn(2), m.msgOf(ml), m.dstOf(dl))
+			} else {
+				m.EEncodeToGroup(m.rng.Intn(2), m.msgOf(ml), m.dstOf(dl))
+			}
+		}
 		m.reusedBuffers(func(msg, dst []byte) {
 			if m.rng.Intn(2) == 0 {
 				m.EHashToGroup(m.rng.Intn(2), msg, dst)
@@ -368,6 +406,11 @@ func genC09(m *M, budget int) {
 				m.class("layout:one_record")
 			}
 			m.SHashToScalar(m.rng.Intn(2), msg, dst)
+		}
+		for j := 0; j < 6; j++ {
+			ml, dl, what := m.sizeBoundaryPair()
+			m.class("preimage:" + what)
+			m.SHashToScalar(m.rng.Intn(2), m.msgOf(ml), m.dstOf(dl))
 		}
 		m.reusedBuffers(func(msg, dst []byte) { m.SHashToScalar(m.rng.Intn(2), msg, dst) })
 		if m.giantDue() {
